@@ -111,6 +111,10 @@ pub fn run(tkind: TKind, rounds: usize) {
     let bits = choose(4, "queue features (indirect, event index)");
     let (indirect, event_idx) = (bits & 1 != 0, bits & 2 != 0);
     let offered = F_VERSION_1 | if indirect { F_INDIRECT } else { 0 } | if event_idx { F_EVENT_IDX } else { 0 };
+    // The platform's window of device addresses for shared buffers may start at 0.
+    if choose(2, "device addresses of shared buffers start at 0x9_0000_0000 or at 0") == 1 {
+        hal::with(|h| h.set_share_base(0));
+    }
     // A few allocations first so that the queue's regions start in an explored window.
     let pre = choose(3, "DMA allocations made before the queue's");
     let mut keep = vec![];
